@@ -52,7 +52,8 @@ class GenModel(nn.Module):
     def plist(self):
         return [getattr(self, "p%d" % i) for i in range(len(self.kinds))]
 
-    def forward(self, *data):
+    def forward(self, *data, **kw):
+        data = tuple(data) + tuple(kw[k] for k in sorted(kw, key=lambda n: int(n[1:])))   # dict input: keys d0, d1, ...
         P = self.plist()
         outs, di = [], 0
         for rs in self.spec["residuals"]:
